@@ -354,12 +354,17 @@ fn scan_case(t: &mut Tally, case: &Case, label: &str) {
     // when the client presented the correct digits in another letter case, windows of what it presented overlap the
     // correct signature: then only a verbatim occurrence of the full lower-case signature (which it did not send) counts
     let mut full_only: Option<Vec<u8>> = None;
+    let mut log_only: Option<Vec<u8>> = None;
     if refused {
         if let Some(sig) = &j.analysis.expected_sig {
             let presented = j.analysis.presented_sig.clone().unwrap_or_default();
             let shares_window = presented.len() >= W && sig.len() >= W && presented.as_bytes().windows(W).any(|w| sig.as_bytes().windows(W).any(|x| x == w));
             if presented.contains(sig.as_str()) {
-                // the client sent the whole correct signature (plus decoration): nothing about it can leak to that client
+                // the client sent the whole correct signature (plus decoration) and is refused for another reason (stale,
+                // wrong scope, a missing signed header, a provider failure): nothing about it can leak to that client
+                // through errors or through values that hold what it sent — but a log record at debug level or above is read
+                // by others, and there the correct signature of a refused request has no business
+                log_only = Some(sig.clone().into_bytes());
                 t.count("decorated_correct_signature_refused");
             } else if presented != *sig && presented.eq_ignore_ascii_case(sig) {
                 full_only = Some(sig.clone().into_bytes());
@@ -430,6 +435,22 @@ fn scan_case(t: &mut Tally, case: &Case, label: &str) {
                     None,
                 ));
                 return;
+            }
+        }
+        if let Some(sig) = &log_only {
+            if name.starts_with("log record") {
+                t.count("log_records_scanned_for_a_correct_signature_the_refused_client_presented");
+                let up = sig.to_ascii_uppercase();
+                if h.windows(sig.len()).any(|w| w == &sig[..] || w == &up[..]) {
+                    t.violate(violation(
+                        "leak",
+                        &format!("presented-correct-signature|{}", name.split(' ').take(3).collect::<Vec<_>>().join(" ")),
+                        format!("the correct signature of a request that is refused for another reason appears in {} ({}): …{}…", name, label, crate::run::truncate(&String::from_utf8_lossy(h), 300)),
+                        case,
+                        None,
+                    ));
+                    return;
+                }
             }
         }
         t.count("renderings_scanned");
@@ -610,11 +631,12 @@ pub fn run(tier: Tier) -> i32 {
     ctx.gate("secrets with white space / quote / backslash / non-ASCII at an edge", tally.get("secrets_with_odd_edge_character"), tier.n(5_000, 150_000));
     ctx.gate("cases with a 2–7 character secret (searched for as a whole)", tally.get("short_secrets_of_rare_characters"), tier.n(10_000, 300_000));
     ctx.gate("refusals of a prefix / one-digit-off variant of the correct signature scanned", tally.get("near_miss_of_correct_signature_refused"), tier.n(500, 10_000));
+    ctx.gate("requests refused for another reason although their signature is correct (stale, scope, requirements, provider failure)", tally.get("decorated_correct_signature_refused"), tier.n(2000, 60_000));
     ctx.gate("public key / request / response types formatted", tally.get("public_key_types_formatted"), tier.n(10_000, 300_000));
     ctx.gate("log records at debug level or above judged", tally.get("log_records_judged/DEBUG") + tally.get("log_records_judged/INFO") + tally.get("log_records_judged/WARN") + tally.get("log_records_judged/ERROR"), tier.n(100, 1000));
     let rep = Report {
         level: "exploration",
-        rule: "Taint scan. Every execution of W-sign / W-defect (no defect, each injector alone — a refusal at every rank incl. every provider failure kind —, random pairs; both carriers, all option sets) runs with a capturing log::Log at max level Trace. Scanned: the error's Display and Debug plus its alternate / hex-flavoured / width / precision renderings and its source() chain, {} {:#} {:80} {:.8} {:?} {:#?} {:x?} {:#x?} {:X?} of KSecretKey…KSigningKey and of KeyTooLongError (also boxed and converted), GetSigningKeyRequest/Response, SigV4AuthenticatorResponse, (unstable feature) CanonicalRequest, AuthParams, SigV4Authenticator, returned principal/session, and every captured log record of level Error/Warn/Info/Debug, including records emitted while keys are constructed and values formatted (trace records are counted and used only as the control); a quarter of the shards run with the logger at Debug, as a deployment would. Patterns: secret, 'AWS4'+secret, kDate, kRegion, kService, kSigning — raw, hex, HEX, separated hex (`:`/space/`0x`/`\\x`, found after separators are stripped), base64 (std / url-safe, three alignments), decimal and hex lists ({:?} {:x?} {:X?} {:02x?} {:#04x?}), escape_ascii, escape_debug, lossy UTF-8, trimmed — and, for a refused request, the correct signature the reference model computes (either case); a match of ≥ 16 consecutive pattern bytes is a violation. Secrets are 16–64 random characters, or (one case in six) 2–7 characters from an alphabet nothing else in the workload uses, searched for as a whole (longer than 40: the provider's key type refuses them), a quarter with white space, a quote, a backslash or a non-ASCII character at an edge; wrong signatures include prefixes and one-digit-off variants of the correct one (then only the complete correct signature counts). Distinct = distinct scanned cases by hash.".into(),
+        rule: "Taint scan. Every execution of W-sign / W-defect (no defect, each injector alone — a refusal at every rank incl. every provider failure kind —, random pairs; both carriers, all option sets) runs with a capturing log::Log at max level Trace. Scanned: the error's Display and Debug plus its alternate / hex-flavoured / width / precision renderings and its source() chain, {} {:#} {:80} {:.8} {:?} {:#?} {:x?} {:#x?} {:X?} of KSecretKey…KSigningKey and of KeyTooLongError (also boxed and converted), GetSigningKeyRequest/Response, SigV4AuthenticatorResponse, (unstable feature) CanonicalRequest, AuthParams, SigV4Authenticator, returned principal/session, and every captured log record of level Error/Warn/Info/Debug, including records emitted while keys are constructed and values formatted (trace records are counted and used only as the control); a quarter of the shards run with the logger at Debug, as a deployment would. Patterns: secret, 'AWS4'+secret, kDate, kRegion, kService, kSigning — raw, hex, HEX, separated hex (`:`/space/`0x`/`\\x`, found after separators are stripped), base64 (std / url-safe, three alignments), decimal and hex lists ({:?} {:x?} {:X?} {:02x?} {:#04x?}), escape_ascii, escape_debug, lossy UTF-8, trimmed — and, for a refused request, the correct signature the reference model computes (either case); a match of ≥ 16 consecutive pattern bytes is a violation. Secrets are 16–64 random characters, or (one case in six) 2–7 characters from an alphabet nothing else in the workload uses, searched for as a whole (longer than 40: the provider's key type refuses them), a quarter with white space, a quote, a backslash or a non-ASCII character at an edge; wrong signatures include prefixes and one-digit-off variants of the correct one (then only the complete correct signature counts); when a request is refused for another reason although the signature it presented is the correct one (stale, wrong scope, a required header not signed, a provider failure), errors and values that hold what the client sent are not held against the library, but every log record at debug level or above is searched for that signature. Distinct = distinct scanned cases by hash.".into(),
         assumptions: vec!["leaks shorter than 16 consecutive bytes of a pattern are not detected, except whole short secrets of 4–15 bytes".into(), "trace-level records are outside the statement".into()],
         extra: J::obj().set("calibrated_vectors", J::i(pre.unwrap_or(0) as i64)),
     };
